@@ -14,8 +14,10 @@ ROOT = Path(__file__).resolve().parent.parent
 
 
 def run_in_worktree(a, d, meta, props):
-    import os
+    import os, fcntl
     wt, bd, out = "/tmp/seed_wt", "/tmp/seed_build", "/tmp/seed_out"
+    lockf = open("/tmp/seed_wt.lock", "w")
+    fcntl.flock(lockf, fcntl.LOCK_EX)   # one seeded run at a time in the shared scratch worktree
     head = subprocess.run(["git", "-C", "/repo", "rev-parse", "HEAD"], capture_output=True, text=True).stdout.strip()
     if not Path(wt).exists():
         subprocess.run(["git", "-C", "/repo", "worktree", "add", "--detach", wt, head], capture_output=True)
